@@ -19,6 +19,8 @@ Definition K_DLOG_ED : N := 4.      (* 64 bytes: ed25519 dlog proof (two canonic
 Definition K_BLS_PROOF : N := 5.    (* 64 bytes: aggregate_sig::Proof (two BLS12-381 scalars) *)
 Definition K_UTF8 : N := 6.         (* any length: valid UTF-8 *)
 Definition K_CRED_ID : N := 7.      (* 48 bytes: credential registration id (G1 point) *)
+Definition K_G2 : N := 10.          (* 96 bytes: BLS12-381 G2 point, canonical encoding *)
+Definition K_FR : N := 11.          (* 32 bytes: BLS12-381 scalar, canonical (below the group order) *)
 Definition K_G1 : N := 9.           (* 48 bytes: point of the anonymity-revoker curve (BLS12-381 G1), canonical encoding *)
 Definition K_ELGAMAL_PK : N := 8.   (* 96 bytes: elgamal public key of an anonymity revoker (generator and key, two G1 points) *)
 
@@ -59,6 +61,25 @@ Definition s_leverage_factor :=
 Definition s_inclusive_range_fraction :=
   SRefine (PFun (fun v => match v with VList [VNum a; VNum b] => a <=? b | _ => false end))
           (STuple [s_amount_fraction; s_amount_fraction]).
+
+(** ** Small hand-written impls used as leaves of derived types (id/types.rs, id/constants.rs, protocol_level_tokens) *)
+(** YearMonth::new: 1000 <= year <= 9999, 1 <= month <= 12. *)
+Definition s_year_month :=
+  SRefine (PAnd (PField 0 (PAnd (PGe 1000) (PLe 9999))) (PField 1 (PAnd (PGe 1) (PLe 12)))) (STuple [SU16; SU8]).
+(** AttributeKind: u8 length <= 31, UTF-8. *)
+Definition s_attribute_kind := SRefine (POpaque K_UTF8) (SBytes BE 1 31).
+(** TokenId: u8 length in 1..128, characters a-z A-Z 0-9 - . %% *)
+Definition token_id_char (b : N) : bool :=
+  ((97 <=? b) && (b <=? 122)) || ((65 <=? b) && (b <=? 90)) || ((48 <=? b) && (b <=? 57)) || (b =? 45) || (b =? 46) || (b =? 37).
+Definition s_token_id :=
+  SRefine (PAnd (PLenGe 1) (PFun (fun v => match v with VBytes bs => forallb token_id_char bs | _ => false end))) (SBytes BE 1 128).
+(** chrono::DateTime<Utc>: i64 milliseconds (two's complement) inside chrono's representable range
+    (-262143-01-01T00:00:00 .. +262142-12-31T23:59:59.999). *)
+Definition s_datetime_utc :=
+  SRefine (PFun (fun v => match v with
+                          | VNum n => (n <=? 8210266876799999) || (18446744073709551616 - 8334601228800000 <=? n)
+                          | _ => false
+                          end)) SU64.
 
 (** ** Transaction headers *)
 Definition s_transaction_header :=
@@ -228,7 +249,7 @@ Definition s_level1_update :=
     payload (tag 12) it is framed by a u32 byte length that must be consumed exactly. *)
 Definition s_string_u32 := SRefine (POpaque K_UTF8) (SBytes BE 4 4294967295).
 Definition s_description := STuple [s_string_u32; s_string_u32; s_string_u32].
-Definition s_ar_info := STuple [SRefine (PGe 1) SU32; s_description; SOpaque 96 K_ELGAMAL_PK].
+Definition s_ar_info := STuple [SRefine (PGe 1) SU32; s_description; STuple [SOpaque 48 K_G1; SOpaque 48 K_G1]].
 Definition s_add_anonymity_revoker := SFramed SU32 [] s_ar_info.
 
 Definition update_payload_alts_all : list (N * schema) :=
